@@ -429,8 +429,9 @@ package scipipe
 // Tags (C10 "tags attached upstream are present on every downstream record"): stated for the inputs that carry their
 // record when the task starts (old(auditInfo) != nil: every IP received from an upstream task of this run, and every IP
 // created for an existing file). A tag with an empty value counts as absent (AddTag lets any value overwrite it).
-//@ define inTagsKept(t *Task) bool = forall i string, k string :: i in t.InIPs && old(t.InIPs[i].auditInfo) != nil ==> t.InIPs[i].auditInfo == old(t.InIPs[i].auditInfo) && t.InIPs[i].auditInfo.Tags == old(t.InIPs[i].auditInfo.Tags) && ((k in t.InIPs[i].auditInfo.Tags) <==> old(k in t.InIPs[i].auditInfo.Tags)) && t.InIPs[i].auditInfo.Tags[k] == old(t.InIPs[i].auditInfo.Tags[k])
-//@ define inTagsApart(t *Task, a *AuditInfo) bool = forall i string :: i in t.InIPs && old(t.InIPs[i].auditInfo) != nil ==> old(t.InIPs[i].auditInfo.Tags) != a.OutFiles && old(t.InIPs[i].auditInfo.Tags) != a.Tags && old(t.InIPs[i].auditInfo) != a
+//@ define hasRec(t *Task, i string) bool = old(t.InIPs[i] != nil && t.InIPs[i].BaseIP != nil && t.InIPs[i].auditInfo != nil)
+//@ define inTagsKept(t *Task) bool = forall i string, k string :: i in t.InIPs && hasRec(t, i) ==> t.InIPs[i].auditInfo == old(t.InIPs[i].auditInfo) && t.InIPs[i].auditInfo.Tags == old(t.InIPs[i].auditInfo.Tags) && ((k in t.InIPs[i].auditInfo.Tags) <==> old(k in t.InIPs[i].auditInfo.Tags)) && t.InIPs[i].auditInfo.Tags[k] == old(t.InIPs[i].auditInfo.Tags[k])
+//@ define inTagsApart(t *Task, a *AuditInfo) bool = forall i string :: i in t.InIPs && hasRec(t, i) ==> old(t.InIPs[i].auditInfo.Tags) != a.OutFiles && old(t.InIPs[i].auditInfo.Tags) != a.Tags && old(t.InIPs[i].auditInfo) != a
 //@ define tagsFrom(t *Task, a *AuditInfo, i string) bool = forall k string :: old(k in t.InIPs[i].auditInfo.Tags) && old(t.InIPs[i].auditInfo.Tags[k]) != "" ==> a.Tags[k] == old(t.InIPs[i].auditInfo.Tags[k])
 //@ define freshRecord(a *AuditInfo) bool = fresh(a) && fresh(a.Upstream) && fresh(a.OutFiles) && fresh(a.Tags) && a.Upstream != nil && a.OutFiles != nil && a.Tags != nil && a.Tags != a.OutFiles && a.Tags != a.Params && a.OutFiles != a.Params
 //@ define outFilesRecorded(t *Task, a *AuditInfo) bool = (forall n string :: n in a.OutFiles <==> n in t.OutIPs) && (forall n string :: n in t.OutIPs ==> a.OutFiles[n] == t.OutIPs[n].path)
@@ -453,7 +454,7 @@ package scipipe
 //@   ensures every-output-carries-the-record[C10]: exists a *AuditInfo :: recordOf(t, a, startTime, finishTime) && outFilesRecorded(t, a) && (forall o string :: o in t.OutIPs ==> t.OutIPs[o].auditInfo == a)
 //@   ensures upstream-records-linked-by-path[C10,C11]: old(inputsDistinct(t)) ==> exists a *AuditInfo :: recordOf(t, a, startTime, finishTime) && (forall o string :: o in t.OutIPs ==> t.OutIPs[o].auditInfo == a) && ((exists o string :: o in t.OutIPs) ==> upstreamLinked(t, a))
 //@   ensures audit-file-written-for-every-output[C10]: forall o string :: o in t.OutIPs ==> effCreated[t.OutIPs[o].path + ".audit.json"]
-//@   ensures upstream-tags-present-downstream[C10]: (exists o string :: o in t.OutIPs) ==> exists a *AuditInfo :: (forall o string :: o in t.OutIPs ==> t.OutIPs[o].auditInfo == a) && (forall i string :: i in t.InIPs && old(t.InIPs[i].auditInfo) != nil ==> tagsFrom(t, a, i))
+//@   ensures upstream-tags-present-downstream[C10]: (exists o string :: o in t.OutIPs) ==> exists a *AuditInfo :: (forall o string :: o in t.OutIPs ==> t.OutIPs[o].auditInfo == a) && (forall i string :: i in t.InIPs && hasRec(t, i) ==> tagsFrom(t, a, i))
 //@   loop 0 invariant in-tags-kept: inTagsKept(t)
 //@   loop 0 invariant in-tags-apart: inTagsApart(t, auditInfo)
 //@   loop 0 invariant rec: recordOf(t, auditInfo, startTime, finishTime) && freshRecord(auditInfo)
@@ -478,7 +479,7 @@ package scipipe
 //@   loop 2 invariant outfiles: (forall n string :: n in auditInfo.OutFiles <==> $visited[n]) && (forall n string :: $visited[n] ==> auditInfo.OutFiles[n] == t.OutIPs[n].path)
 //@   loop 3 invariant in-tags-kept: inTagsKept(t)
 //@   loop 3 invariant in-tags-apart: inTagsApart(t, auditInfo)
-//@   loop 3 invariant tags-merged: (exists o string :: $visited[o]) ==> forall i string :: i in t.InIPs && old(t.InIPs[i].auditInfo) != nil ==> tagsFrom(t, auditInfo, i)
+//@   loop 3 invariant tags-merged: (exists o string :: $visited[o]) ==> forall i string :: i in t.InIPs && hasRec(t, i) ==> tagsFrom(t, auditInfo, i)
 //@   loop 3 invariant rec: recordOf(t, auditInfo, startTime, finishTime) && freshRecord(auditInfo) && outFilesRecorded(t, auditInfo)
 //@   loop 3 invariant linked: old(inputsDistinct(t)) ==> upstreamLinked(t, auditInfo)
 //@   loop 3 invariant vis: forall k string :: $visited[k] ==> k in t.OutIPs
@@ -488,8 +489,8 @@ package scipipe
 //@   loop 4 invariant in-tags-kept: inTagsKept(t)
 //@   loop 4 invariant in-tags-apart: inTagsApart(t, auditInfo)
 //@   loop 4 invariant vis: forall i string :: $visited[i] ==> i in t.InIPs
-//@   loop 4 invariant tags-so-far: forall i string :: $visited[i] && old(t.InIPs[i].auditInfo) != nil ==> tagsFrom(t, auditInfo, i)
-//@   loop 4 invariant tags-before: (exists o string :: $visited3[o] && t.OutIPs[o] != oip) ==> forall i string :: i in t.InIPs && old(t.InIPs[i].auditInfo) != nil ==> tagsFrom(t, auditInfo, i)
+//@   loop 4 invariant tags-so-far: forall i string :: $visited[i] && hasRec(t, i) ==> tagsFrom(t, auditInfo, i)
+//@   loop 4 invariant tags-before: (exists o string :: $visited3[o] && t.OutIPs[o] != oip) ==> forall i string :: i in t.InIPs && hasRec(t, i) ==> tagsFrom(t, auditInfo, i)
 //@   loop 4 invariant rec: recordOf(t, auditInfo, startTime, finishTime) && freshRecord(auditInfo) && outFilesRecorded(t, auditInfo) && oip.auditInfo == auditInfo && oip != nil
 //@   loop 4 invariant linked: old(inputsDistinct(t)) ==> upstreamLinked(t, auditInfo)
 //@   loop 4 invariant attached: forall k string :: $visited3[k] && t.OutIPs[k] != oip ==> t.OutIPs[k].auditInfo == auditInfo && effCreated[t.OutIPs[k].path + ".audit.json"]
